@@ -421,6 +421,8 @@ _CONN_SK = ["passage-protocol/src/connection.rs", "passage-protocol/src/crypto/m
 for _p in ("C01", "C02", "C03", "C04", "C06", "C07", "C08", "C10"):
     PROPS[_p]["skeleton"] = list(_CONN_SK)
     PROPS[_p]["ties"] = PROPS[_p].get("ties", []) + ["tools/skeleton.py: primitive sequence of Connection::listen / receive_packet / keep_alive / send_packet against the stored skeleton the model was transcribed from"]
+for _p in ("C06", "C07", "C08", "C09"):
+    PROPS[_p]["ties"] = PROPS[_p].get("ties", []) + ["conn binary family WCAP: real Connection::listen on a transport whose free room follows a schedule and a localization adapter that suspends vs Conn.Sem3.run3 exactly (frames by the instant their last byte was accepted, every adapter call started, the end, bytes accepted per instant); the five property monitors and the switch monitor on the implementation's observation aligned with M3's run"]
 for _p in ("C01", "C02", "C03", "C04", "C06", "C07", "C08", "C10"):
     PROPS[_p]["max_skipped"] = 0      # no conn case may fall outside the model (e.g. because a packet impl became unparsable)
 for _p in ("C01", "C02", "C03", "C06", "C07"):
